@@ -17,8 +17,6 @@ verus! {
 //@ fragment seenlist.rs
 //@ fragment checker_spec.rs
 
-use crate::nitrogql_ast::base::Ident;
-use crate::nitrogql_ast::value::Value;
 
 //@ contract graphql_type_system::r#type ::fn is_nonnull
 //@   ret r
@@ -26,6 +24,7 @@ use crate::nitrogql_ast::value::Value;
 //@ end
 //@ contract nitrogql_checker::common ::fn check_value
 //@   attr #[verifier::external_body]
+//@   requires [assumed.value.pre_schema_wf] crate::schema_wf(definitions)
 //@   ensures [assumed.value.frame] crate::extends_errs(old(result)@, final(result)@)
 //@   ensures [assumed.value.exact] (final(result)@.len() == old(result)@.len()) <==> crate::value_valid(definitions, variables, *value, *expected_type)
 //@ end
@@ -98,7 +97,6 @@ pub open spec fn args_view<'a, 'src>(v: Seq<&'a (Ident<'src>, Value<'src>)>, sup
 
 //@ fragment contract_check_arguments.rs
 //@   unexternal
-//@   requires [C03.args.pre_unique_argdefs] crate::nodup(crate::argdef_names(arguments_definition@))
 //@   prefix broadcast use crate::text_model; let ghost args0 = arguments; let ghost sup = crate::supplied(arguments); let ghost defs = arguments_definition@; let ghost len0 = result@.len(); proof { crate::axiom_text_obeys::<S>(); crate::axiom_text_obeys_str::<S>(); reveal(crate::args_valid); }
 //@   loops 3
 //@   closure 1 |p__: &&&(crate::nitrogql_ast::base::Ident<'src>, crate::nitrogql_ast::value::Value<'src>)| -> (b: bool) ;; ensures [C03+C04.args.cl_find] b == (crate::tv(arg_def.name.inner) == (***p__).0.name@)
@@ -106,7 +104,7 @@ pub open spec fn args_view<'a, 'src>(v: Seq<&'a (Ident<'src>, Value<'src>)>, sup
 //@   hint before 0 "let mut seen_args = 0;" :: [C03+C04.args.h_used_init] let ghost mut bound: Set<int> = Set::empty(); proof { assert(crate::args_view(arguments@, sup)) by { match args0 { Some(a) => { let rem = a.arguments@.as_ref(); assert forall|i: int| 0 <= i < arguments@.len() implies *(#[trigger] arguments@[i]) == sup[i] by { assert(*rem[i] == sup[i]); } }, None => {} } } }
 //@   loop 0 iter_name it
 //@   loop 0 invariant [C03+C04.args.defs.iter] it.seq().len() == defs.len() && 0 <= it.index@ <= it.seq().len() && (forall|i: int| 0 <= i < it.seq().len() ==> *it.seq()[i] == defs[i]) && defs == arguments_definition@ && defs.len() > 0
-//@   loop 0 invariant [C03+C04.args.defs.frame] crate::extends_errs(old(result)@, result@) && len0 == old(result)@.len()
+//@   loop 0 invariant [C03+C04.args.defs.frame] crate::extends_errs(old(result)@, result@) && len0 == old(result)@.len() && crate::schema_wf(definitions)
 //@   loop 0 invariant [C03+C04.args.defs.view] crate::args_view(arguments@, sup) && crate::nodup(crate::argdef_names(defs))
 //@   loop 0 invariant [C03+C04.args.defs.used] crate::used_ok(bound, sup, defs, it.index@ as int) && bound.len() == seen_args && seen_args <= it.index@
 //@   loop 0 invariant [C03+C04.args.defs.exact] (result@.len() == len0) <==> crate::argdefs_satisfied_upto(definitions, variables, sup, defs, it.index@ as int)
@@ -117,7 +115,7 @@ pub open spec fn args_view<'a, 'src>(v: Seq<&'a (Ident<'src>, Value<'src>)>, sup
 //@   loop 1 ensures [C03+C04.args.null_allowed] null_is_allowed == (!(arg_def.r#type is NonNull) || arg_def.default_value is Some)
 //@   loop 2 iter_name it2
 //@   loop 2 invariant [C03+C04.args.extra.iter] it2.seq().len() == sup.len() && 0 <= it2.index@ <= it2.seq().len() && (forall|i: int| 0 <= i < it2.seq().len() ==> *it2.seq()[i] == sup[i]) && defs == arguments_definition@
-//@   loop 2 invariant [C03+C04.args.extra.frame] crate::extends_errs(old(result)@, result@) && len0 == old(result)@.len()
+//@   loop 2 invariant [C03+C04.args.extra.frame] crate::extends_errs(old(result)@, result@) && len0 == old(result)@.len() && crate::schema_wf(definitions)
 //@   loop 2 invariant [C03+C04.args.extra.exact] (result@.len() == len0) <==> (crate::argdefs_satisfied_upto(definitions, variables, sup, defs, defs.len() as int) && crate::supplied_defined_upto(sup, defs, it2.index@ as int))
 //@   loop 2 prefix broadcast use crate::text_model; let ghost mut m: int = 0; proof { m = it2.index@ as int; crate::axiom_text_obeys::<S>(); crate::axiom_text_obeys_str::<S>(); crate::lemma_defined_step(sup, defs, m); }
 //@   wrap 0 "arguments_definition .iter() .all(|arg_def| arg_def.name != arg_name.name)" :: [C03+C04.args.h_all] proof { let nm = arg_name.name@; let rem2 = arguments_definition@.as_ref(); assert(r__ == !crate::argdef_names(defs).contains(nm)) by { if r__ { assert forall|k: int| 0 <= k < defs.len() implies crate::argdef_names(defs)[k] != nm by { assert(*rem2[k] == defs[k]); } } else { let k = choose|k: int| 0 <= k < rem2.len() && crate::tv((*(#[trigger] rem2[k])).name.inner) == nm; assert(crate::argdef_names(defs)[k] == nm); } } assert(nm == sup[m].0.name@); }
